@@ -396,6 +396,9 @@ pub struct CaseLarge {
     pub group: u8,
     pub skip: u32,
     pub take: Option<u32>,
+    /// equal sort keys arrive in runs of this many consecutive rows (0 = independently drawn)
+    #[serde(default)]
+    pub run_len: u32,
 }
 
 fn mix(mut x: u64) -> u64 {
@@ -411,7 +414,7 @@ impl C08Large {
         let mut out = Vec::with_capacity(c.n as usize * 40);
         for i in 0..c.n as u64 {
             let h = mix(c.seed ^ i);
-            let k = h % c.keys.max(1) as u64;
+            let k = if c.run_len > 0 { mix(c.seed ^ (i / c.run_len as u64) ^ 0x55) % c.keys.max(1) as u64 } else { h % c.keys.max(1) as u64 };
             let g = (h >> 20) % 5;
             if c.unique {
                 // rows repeat: the serial number is left out
@@ -475,8 +478,8 @@ impl Check for C08Large {
     fn strategy(&self, t: Tier) -> BoxedStrategy<CaseLarge> {
         let max_n: u32 = t.pick(6_000, 70_000);
         let n = prop_oneof![3 => 1_030u32..3_000, 2 => 3_000u32..max_n, 1 => 200u32..1_030];
-        (n, any::<u64>(), 1u8..5, prop_oneof![Just(0u8), Just(0u8), 2u8..20], prop_oneof![1 => Just(0u8), 4 => Just(1u8), 2 => Just(2u8), 1 => Just(3u8)], any::<bool>(), prop::bool::weighted(0.15), prop_oneof![4 => Just(0u8), 1 => Just(1u8), 1 => Just(2u8)], (0u8..10, any::<u16>()), (0u8..12, any::<u16>()))
-            .prop_map(|(n, seed, keys, absent_every, sort, desc, unique, group, (sk, sr), (tk, tr))| {
+        (n, any::<u64>(), 1u8..5, prop_oneof![Just(0u8), Just(0u8), 2u8..20], prop_oneof![1 => Just(0u8), 4 => Just(1u8), 2 => Just(2u8), 1 => Just(3u8)], any::<bool>(), prop::bool::weighted(0.15), prop_oneof![4 => Just(0u8), 1 => Just(1u8), 1 => Just(2u8)], (0u8..10, any::<u16>()), (0u8..12, any::<u16>()), prop_oneof![4 => Just(0u32), 1 => prop::sample::select(vec![2u32, 7, 511, 512, 513, 1024, 1025])])
+            .prop_map(|(n, seed, keys, absent_every, sort, desc, unique, group, (sk, sr), (tk, tr), run_len)| {
                 let frac = |r: u16, m: u32| ((r as u64 * (m as u64 + 1)) >> 16) as u32;
                 let skip = match sk {
                     0..=2 => 0,
@@ -500,7 +503,7 @@ impl Check for C08Large {
                     8 => Some(n),
                     _ => Some(1 + frac(tr, 30)),
                 };
-                CaseLarge { n, seed, keys, absent_every, sort, desc, unique, group, skip, take }
+                CaseLarge { n, seed, keys, absent_every, sort, desc, unique, group, skip, take, run_len }
             })
             .boxed()
     }
@@ -558,6 +561,7 @@ impl Check for C08Large {
                 .class_if(c.sort > 0 && cut, "top_n_cut")
                 .class_if(c.sort > 0 && cut && all.len() > c.skip as usize + c.take.unwrap_or(0) as usize + 1024, "more_than_1024_surplus_rows")
                 .class_if(c.sort >= 2, "two_sort_keys")
+                .class_if(c.run_len > 0, "runs_of_equal_keys")
                 .class_if(c.unique, "unique")
                 .class_if(c.group == 1, "group_by")
                 .class_if(c.group == 2, "merge")
